@@ -34,7 +34,8 @@ MANIFEST = {
             'the pilot state order decides callbacks and Pilot.state after '
             'every message.  Termination causes (run time reached, cancel '
             'naming this / another pilot, none) are enacted on the real '
-            'Agent_0 methods with preceding no-op events interleaved.',
+            'Agent_0 methods with preceding no-op events interleaved.'
+            '  Second session: 35% of the histories register application-like pilot callbacks (one-shot, raising, registering) before a late observer which must be told exactly what the first observer is told.',
     'note': 'Agent_0 is built with __new__ and a virtual clock; bootstrap_0.sh '
             'is not executed, only the file it reads (killme.signal) is '
             'checked; overlapping causes (cancel racing the run-time limit) '
